@@ -20,7 +20,8 @@ EXPLANATION = (
     'form (R18.4) and structural equality rules (R18.3/R18.5). Decides that '
     'identity is computed from normalised paths and sanitised arguments '
     'through one key function and JSON equality; the JSON-equality '
-    'semantics over all values are C18\'s undecided part.')
+    'semantics over all values are C18\'s undecided part.'
+    ' R7.5: the callee receives copies of the sanitised arguments (R11.1).')
 
 IDENTITY_FIELDS = ('func_name', 'args', 'kwargs', 'filename')
 
